@@ -36,6 +36,32 @@ RED = {
 }
 
 AXES = ["sample", "observation", "whole"]
+ACCESSORS = ["nnz", "density", "repr", "queries", "nonzero", "stats", "report", "frames"]
+ZERO_RULES = ["even-pos", "odd-pos", "below-3", "first", "all-but-first", "above-mean"]
+
+
+def zero_rule(rule):
+    """a transform function that zeroes some of the (stored) values of every vector"""
+    import numpy as np
+
+    def f(data, id_, md):
+        d = np.array(data, dtype=float)
+        idx = np.arange(len(d))
+        if rule == "even-pos":
+            d[idx % 2 == 0] = 0
+        elif rule == "odd-pos":
+            d[idx % 2 == 1] = 0
+        elif rule == "below-3":
+            d[d < 3] = 0
+        elif rule == "first":
+            d[:1] = 0
+        elif rule == "all-but-first":
+            d[1:] = 0
+        elif rule == "above-mean" and len(d):
+            d[d > d.mean()] = 0
+        return d
+    return f
+
 POSTS = ["none", "none", "sort_rev", "transpose", "filter", "copy", "sort_obs"]
 
 
@@ -267,18 +293,31 @@ class Checker:
         return r
 
     # every check gets `t` (real table), `inp` (its own content, taken BEFORE the summaries run)
-    def queries(self, t, inp, tag, tags):
-        items = []
+    def queries(self, t, inp, tag, tags, only=None, exact=True, order=None):
+        """all axes/modes of every array summary; `only`: restrict to these query names; `exact=False`: leave out the
+        figures that add floats up (after `norm` the values are no dyadic fractions); `order`: an rng that shuffles
+        the order in which the accessors are called"""
+        specs = []
         for ax in AXES:
-            items.append(({"q": "sum", "axis": ax}, ans_of(lambda: t.sum(ax))))
-            items.append(({"q": "min", "axis": ax}, ans_of(lambda: t.min(ax))))
-            items.append(({"q": "max", "axis": ax}, ans_of(lambda: t.max(ax))))
+            specs.append(({"q": "sum", "axis": ax}, lambda ax=ax: t.sum(ax)))
+            specs.append(({"q": "min", "axis": ax}, lambda ax=ax: t.min(ax)))
+            specs.append(({"q": "max", "axis": ax}, lambda ax=ax: t.max(ax)))
             for b in (True, False):
-                items.append(({"q": "nzc", "axis": ax, "binary": b}, ans_of(lambda: t.nonzero_counts(ax, binary=b))))
-        items.append(({"q": "density"}, ans_of(lambda: t.get_table_density())))
+                specs.append(({"q": "nzc", "axis": ax, "binary": b},
+                              lambda ax=ax, b=b: t.nonzero_counts(ax, binary=b)))
+        specs.append(({"q": "density"}, lambda: t.get_table_density()))
+        specs.append(({"q": "nnz"}, lambda: t.nnz))
         for ax in AXES[:2]:
             for fname in RED:
-                items.append(({"q": "reduce", "f": fname, "axis": ax}, ans_of(lambda: t.reduce(RED[fname], ax))))
+                specs.append(({"q": "reduce", "f": fname, "axis": ax}, lambda ax=ax, fname=fname: t.reduce(RED[fname], ax)))
+        if only is not None:
+            specs = [x for x in specs if x[0]["q"] in only]
+        if not exact:
+            specs = [x for x in specs if x[0]["q"] in ("min", "max", "density", "nnz") or
+                     (x[0]["q"] == "nzc" and x[0]["binary"])]
+        if order is not None:
+            order.shuffle(specs)
+        items = [(q, ans_of(call)) for q, call in specs]
         for q, a in items:
             if q["q"] in ("min", "max") and "nums" in a:
                 self.ctx.count("query-%s=values" % q["q"])
@@ -287,25 +326,36 @@ class Checker:
             elif "inf" in a:
                 self.ctx.count("query-%s=inf" % q["q"])
         req = {"op": "queries", "input": inp, "items": [{"query": q, "ans": a} for q, a in items]}
-        self.ask(req, {"check": "queries", "tag": tag}, tags, nt=nontrivial(inp["table"]))
+        self.ask(req, {"check": "queries", "tag": tag, "only": only}, tags, nt=nontrivial(inp["table"]))
+
+    def repr_(self, t, inp, tag, tags):
+        import re
+        text = repr(t)
+        m = re.match(r"^(\d+) x (\d+) (.*) with (\d+) nonzero entries \((-?\d+)% dense\)$", text, re.S)
+        if m is None:
+            self.ctx.fail({"check": "repr", "tag": tag, "text": text, "recipe": self.recipe}, "repr.format", tags)
+            return
+        ob = {"rows": int(m.group(1)), "cols": int(m.group(2)), "nnz": int(m.group(4)), "pct": int(m.group(5))}
+        self.ask({"op": "repr", "input": inp, "repr": ob}, {"check": "repr", "tag": tag}, tags,
+                 nt=nontrivial(inp["table"]))
 
     def nonzero(self, t, inp, tag, tags):
         pairs = [[str(o), str(s)] for o, s in t.nonzero()]
         self.ask({"op": "nonzero", "input": inp, "pairs": pairs}, {"check": "nonzero", "tag": tag}, tags,
                  nt=nontrivial(inp["table"]))
 
-    def stats(self, t, inp, tag, tags):
+    def stats(self, t, inp, tag, tags, binaries=(False, True)):
         from biom.util import compute_counts_per_sample_stats
-        for b in (False, True):
+        for b in binaries:
             mn, mx, med, mean, counts = compute_counts_per_sample_stats(t, b)
             st = {"min": core.frac(mn), "max": core.frac(mx), "median": core.frac(med), "mean": core.frac(mean),
                   "counts": [[str(k), core.frac(v)] for k, v in counts.items()]}
             self.ask({"op": "stats", "table": inp["table"], "binary": b, "stats": st},
                      {"check": "stats", "binary": b, "tag": tag}, tags, nt=nontrivial(inp["table"]))
 
-    def report(self, t, inp, tag, tags, via="api"):
+    def report(self, t, inp, tag, tags, via="api", quals=(False, True)):
         from biom.cli.table_summarizer import _summarize_table
-        for q in (False, True):
+        for q in quals:
             for o in (False, True):
                 if via == "api":
                     with warnings.catch_warnings():
@@ -448,11 +498,99 @@ class Checker:
         self.ctx.count("shape=%s" % ("non-square" if asym(inp["table"]) else "square"))
         self.nonzero(t, inp, tag, tags)          # first: walks the layout exactly as built (index order observable)
         self.queries(t, inp, tag, tags)
+        self.repr_(t, inp, tag, tags)
         self.stats(t, inp, tag, tags)
         self.report(t, inp, tag, tags, "api")
         self.frames(t, inp, tag, tags)
         self.mdframes(t, inp, tag, tags)
         return inp
+
+    # ------------------------------------------------------------------ histories
+    def access(self, t, name, tag, tags, rng, exact=True):
+        """one accessor group on the table AS IT IS NOW: its own content is read first, then the summary is asked"""
+        inp = input_obs(t)
+        tag = "%s:%s" % (tag, name)
+        if name in ("nnz", "density"):
+            self.queries(t, inp, tag, tags, only=[name])
+        elif name == "queries":
+            self.queries(t, inp, tag, tags, exact=exact, order=rng)
+        elif name == "repr":
+            self.repr_(t, inp, tag, tags)
+        elif name == "nonzero":
+            self.nonzero(t, inp, tag, tags)
+        elif name == "stats":
+            self.stats(t, inp, tag, tags, binaries=(False, True) if exact else (True,))
+        elif name == "report":
+            self.report(t, inp, tag, tags, "api", quals=(False, True) if exact else (True,))
+        elif name == "frames":
+            self.frames(t, inp, tag, tags)
+        else:
+            raise ValueError(name)
+
+    def history(self, base, hseed, tag, tags, script=None):
+        """summaries -> an in-place change -> summaries again; the second answers are judged against the table's
+        content after the change.  Everything random derives from `hseed` (replayable)."""
+        import random
+        import numpy as np
+        rng = random.Random(hseed)
+        script = script or {}
+        self.recipe = {"kind": "history", "base": base, "hseed": hseed, "script": script}
+        t = from_recipe(base)
+        dense0 = t.matrix_data.toarray()
+        # phase 1: some accessors, random order
+        first = script.get("first") or rng.sample(ACCESSORS, rng.randint(1, 4))
+        for name in first:
+            self.access(t, name, tag + ":p1", tags, rng)
+        # bring the data into a chosen layout, then (mostly) ask a figure that goes through nnz once more
+        walk = script.get("walk") or rng.choice(["as-is", "obs-walk", "samp-walk"])
+        if walk == "obs-walk":
+            for _ in t.iter_data(axis="observation", dense=False):
+                pass
+        elif walk == "samp-walk":
+            for _ in t.iter_data(axis="sample", dense=False):
+                pass
+        probe = script.get("probe") or rng.choice(["nnz", "density", "repr", "report", "nnz", "none"])
+        if probe != "none":
+            self.access(t, probe, tag + ":probe", tags, rng)
+        fmt = t.matrix_data.getformat()
+        # the change
+        changes = ["zero", "zero", "zero", "zero", "pa", "filter", "update_ids", "scale"]
+        if dense0.size and (dense0 >= 0).all():
+            changes.append("norm")
+        change = script.get("change") or rng.choice(changes)
+        axis = script.get("axis") or rng.choice(["observation", "sample"])
+        exact = True
+        if change == "zero":
+            rule = script.get("rule") or rng.choice(ZERO_RULES)
+            t.transform(zero_rule(rule), axis=axis, inplace=True)
+            change = "zero:" + rule
+        elif change == "scale":
+            t.transform(lambda d, i, m: d / 2.0, axis=axis, inplace=True)
+        elif change == "pa":
+            t.pa(inplace=True)
+        elif change == "filter":
+            ids = list(t.ids(axis=axis))
+            if len(ids) >= 2:
+                t.filter([rng.choice(ids)], axis=axis, invert=True, inplace=True)
+            else:
+                change = "filter-skipped"
+        elif change == "update_ids":
+            t.update_ids({i: "%s_r" % i for i in t.ids(axis=axis)}, axis=axis, inplace=True)
+        elif change == "norm":
+            t.norm(axis=axis, inplace=True)
+            exact = False
+        dense1 = t.matrix_data.toarray()
+        fewer = dense1.shape == dense0.shape and int((dense1 != 0).sum()) < int((dense0 != 0).sum())
+        same_obj_axis = (fmt == "csr" and axis == "observation") or (fmt == "csc" and axis == "sample")
+        self.ctx.count("history-change=%s" % change.split(":")[0])
+        self.ctx.count("history=%s/%s-axis/%s%s" % (fmt, axis[:4], "layout-kept" if same_obj_axis else "converted",
+                                                    "/cells-zeroed" if fewer else ""))
+        self.ctx.count("history-probe=%s" % probe)
+        # phase 2: every accessor, random order
+        second = list(ACCESSORS)
+        rng.shuffle(second)
+        for name in second:
+            self.access(t, name, tag + ":p2:" + change, tags + (("history", change.split(":")[0], axis)), rng, exact=exact)
 
 
 # ----------------------------------------------------------------------------- corpus
@@ -579,6 +717,19 @@ def run(ctx):
             chk.nonzero(t, inp, "fixed:" + name, ("fixed", name))
             chk.stats(t, inp, "fixed:" + name, ("fixed", name))
             chk.frames(t, inp, "fixed:" + name, ("fixed", name))
+        # query -> in-place zeroing along the axis whose layout the table already has (and the other) -> query again
+        for name in ("asym-3x4", "full-2x5"):
+            for walk, axis in [("obs-walk", "observation"), ("samp-walk", "sample"), ("obs-walk", "sample"),
+                               ("samp-walk", "observation")]:
+                for probe in ("nnz", "density", "repr", "report"):
+                    for rule in ("first", "below-3"):
+                        k_det += 1
+                        if not ctx.mine(k_det):
+                            continue
+                        chk.history({"kind": "fixed", "name": name, "post": "none"}, k_det,
+                                    "fixed:hist:%s/%s/%s/%s/%s" % (name, walk, axis, probe, rule), ("fixed", "history"),
+                                    script={"first": [probe], "walk": walk, "probe": probe, "change": "zero",
+                                            "axis": axis, "rule": rule})
         # head: guards of the command and of the method
         chk.recipe = {"kind": "head"}
         t = from_recipe(chk.recipe)
@@ -603,6 +754,7 @@ def run(ctx):
         # 3. random tables
         n_tables = 300 if ctx.quick() else 16000 // ctx.worker[1]
         cli_share = 0.15 if ctx.quick() else 0.1
+        hist_share = 0.6
         for k in range(n_tables):
             spec, route, post, classes = gen_table(rng, ctx.quick())
             chk.recipe = {"kind": "spec", "spec": spec, "route": route, "post": post, "seed": k}
@@ -619,6 +771,9 @@ def run(ctx):
                 chk.head_api(t, inp, tag, tags, rng.choice([1, 2, 3, 9]), rng.choice([1, 2, 4, 9]))
             if rng.random() < cli_share:
                 run_cli(chk, from_recipe(chk.recipe), tag, tags + ("cli",), rng)
+            if rng.random() < hist_share:
+                base = chk.recipe
+                chk.history(base, rng.randrange(10 ** 9), "hist:%s%d" % (wtag, k), tags)
     finally:
         shutil.rmtree(TMP, ignore_errors=True)
 
@@ -636,7 +791,9 @@ def replay(ctx, rec):
             chk.recipe = rc
             tags = tuple(t for t in rec.get("tags", []) if t not in ("nan-for-zero", "to_dataframe-sparse",
                                                                        "to_dataframe-dense"))
-            if rc["kind"] == "empty":
+            if rc["kind"] == "history":
+                chk.history(rc["base"], rc["hseed"], "replay", ("replay",), script=rc.get("script"))
+            elif rc["kind"] == "empty":
                 # tables without cells: the summaries only (nothing can be printed, the commands refuse them)
                 t = from_recipe(rc)
                 inp = input_obs(t)
